@@ -299,6 +299,80 @@ def assign_sequences(sym, tier):
     return r
 
 
+
+# ------------------------------------------------------------------ EventLog: offsets and reads
+class _KeyShard:
+    """A sharding strategy with a known key -> partition map (HashSharding goes through a C-level hash)."""
+
+    def __init__(self, table):
+        self.table = table
+
+    def get_shard(self, key, n):
+        return self.table[key] % n
+
+
+def event_log_ops(sym, tier):
+    """append / retention sweep / read script on a real EventLog (2 partitions, size retention 1-2 or
+    none): offsets per partition are 0,1,2,... in append order and never reused after a sweep, the high
+    watermark counts every append, a read returns the retained records with offset >= the requested one,
+    in increasing offset order without gaps, at most max_records, with the values appended; a sweep keeps
+    exactly the newest max_records of each partition."""
+    from happysimulator.components.streaming.event_log import EventLog, SizeRetention
+    from happysimulator.core.clock import Clock
+    r = Result()
+    keep = sym.choice("retention_max_records", 3)          # 0 = no retention
+    shard = {"a": 0, "b": 1, "c": sym.choice("partition_of_c", 2)}
+    log = EventLog("log", num_partitions=2, sharding_strategy=_KeyShard(shard), retention_policy=SizeRetention(keep) if keep else None)
+    log.set_clock(Clock(Instant(0)))
+    model = {0: [], 1: []}          # partition -> list of (offset, key, value) still retained
+    hw = {0: 0, 1: 0}
+    n = 4 if tier == "quick" else 5
+    script = []
+    for s_ in range(n):
+        op = sym.choice(f"op{s_}", 3) if s_ > 0 else 0
+        if op == 0:
+            k = ["a", "b", "c"][sym.choice(f"key{s_}", 3)]
+            rec = log._do_append(k, 100 + s_)
+            p_ = shard[k]
+            script.append(("append", k))
+            if rec.partition != p_ or rec.offset != hw[p_]:
+                r.bad("offsets_assigned_in_append_order_per_partition", {"script": script, "record": [rec.partition, rec.offset], "expected": [p_, hw[p_]]})
+            model[p_].append((hw[p_], k, 100 + s_))
+            hw[p_] += 1
+        elif op == 1:
+            expired = log._apply_retention()
+            script.append(("sweep",))
+            want = 0
+            if keep:
+                for p_ in (0, 1):
+                    extra = len(model[p_]) - keep
+                    if extra > 0:
+                        model[p_] = model[p_][extra:]
+                        want += extra
+                        r.wit.add("records_expired")
+            if expired != want:
+                r.bad("sweep_expires_exactly_the_excess", {"script": script, "expired": expired, "expected": want})
+        else:
+            p_ = sym.choice(f"read_partition{s_}", 2)
+            off = sym.int(f"read_offset{s_}", 0, 3)
+            mx = sym.int(f"max_records{s_}", 1, 2)
+            got = [(x.offset, x.key, x.value) for x in log._do_read(p_, off, mx)]
+            script.append(("read", p_, off, mx))
+            want = [x for x in model[p_] if x[0] >= off][:mx]
+            if got != want:
+                r.bad("read_returns_retained_records_from_offset_in_order", {"script": script, "got": got, "expected": want})
+            if want and want[0][0] > off:
+                r.wit.add("read_below_the_retained_range")
+        for p_ in (0, 1):
+            if log.high_watermark(p_) != hw[p_]:
+                r.bad("high_watermark_counts_every_append", {"script": script, "partition": p_, "hw": log.high_watermark(p_), "expected": hw[p_]})
+            offs = [x.offset for x in log.partitions[p_].records]
+            if offs != [x[0] for x in model[p_]]:
+                r.bad("partition_holds_exactly_the_retained_offsets", {"script": script, "partition": p_, "offsets": offs, "expected": [x[0] for x in model[p_]]})
+    r.obs = {"script": script}
+    return r
+
+
 MANIFEST = {
     "note": "Message-queue delivery latency from {0, 1 ms}; publish / poll instants are symbolic whole milliseconds; consumer reactions are a symbolic script. "
             "Topic, EventLog offsets/retention, stream processor, outbox relay and idempotency store are not covered by this check.",
@@ -313,6 +387,13 @@ HARNESSES = [
       functions=["MessageQueue.publish/poll/_deliver_message/acknowledge/reject/handle_event/_get_next_consumer", "DeadLetterQueue.add_message"],
       bounds=lambda tier: {"messages": 2, "polls": 3 if tier == "quick" else 4, "consumer actions": ["ack", "reject+requeue", "reject", "ignore (optionally acknowledged late after a visibility timeout + schedule_redelivery)"], "max_redeliveries": [1, 2], "delivery latency": [0.0, 0.001]},
       outside=["several consumers / unsubscribe during a delivery", "Topic fan-out", "EventLog offsets and retention", "stream_processor, outbox_relay, idempotency_store"]),
+    H(name="c19_event_log_ops", fn=event_log_ops, shape="S", budget=lambda tier: 900.0 if tier == "quick" else 3000.0,
+      cubes=lambda tier: [{"retention_max_records": a, "op1": b, "op2": c} for a in range(3) for b in range(3) for c in range(3)],
+      require=lambda tier: ["records_expired", "read_below_the_retained_range"], classify=asg_classify,
+      functions=["EventLog._do_append/_do_read/_apply_retention/high_watermark", "SizeRetention"],
+      bounds=lambda tier: {"partitions": 2, "operations": 4 if tier == "quick" else 5, "keys": 3, "size retention": ["none", 1, 2], "read": "symbolic partition, offset 0..3, max_records 1..2"},
+      assumptions=["HashSharding replaced by a table-driven sharding strategy (the hash is a C-level function)"],
+      outside=["TimeRetention (float ages)", "append/read latencies through the engine"]),
     H(name="c19_assign_sequences", fn=assign_sequences, shape="K", budget=lambda tier: 900.0 if tier == "quick" else 3000.0,
       cubes=lambda tier: [{"strategy": a, "partitions_minus_1": b} for a in range(3) for b in range(4)],
       require=lambda tier: ["member_left_while_another_stayed", "member_joined_or_rejoined"], classify=asg_classify,
